@@ -1,31 +1,28 @@
 (* C04 — Essential object invariants hold for every object kind and every key kind.
    ONLY theorem statements; each is closed by [exact] of a lemma of C04/Proofs*.v.
    S = ECMA-262 10.1 ordinary object (Model.v, first half); I = goja's baseObject transcribed (second
-   half); fx_none = the current tree, fx_all = the five one-line repairs switched on. *)
+   half); fx_cur = the current tree (F1, F2, N2 repaired in /repo), fx_none = the tree before those
+   repairs, fx_all = all five one-line repairs switched on. *)
 From Coq Require Import List Arith NArith Bool Permutation.
 Import ListNotations.
 From Verif.C04 Require Import Model Proofs ProofsKeys ProofsSet.
 
 (* ---------------------------------------------------------------------------------------------- *)
-(* 1. The define decision table: goja's _defineOwnProperty = ValidateAndApplyPropertyDescriptor, for
-      EVERY existing property (bare value, data, accessor) and EVERY partial descriptor.  On the
-      current tree the full statement is refuted (F1, N2): it is proved outside two regions given by
-      boolean guards, the guards are exact, and with the repairs on it holds everywhere. *)
+(* 1. The define decision table: goja's _defineOwnProperty (current tree, fx_cur: F1 and N2 repaired by
+      commits 7dd46dd and 8a03683) = ValidateAndApplyPropertyDescriptor, for EVERY existing property
+      (bare value, data, accessor) satisfying the representation invariant and EVERY partial
+      descriptor.  The tree before those commits differed exactly in the regions in_F1 / in_N2. *)
 
-Theorem define_eq_spec_partial : forall ext ex d,
-  desc_wf d = true -> oiprop_wf ex = true -> in_F1 ex d = false -> in_N2 ex d = false ->
-  option_map absP (GojaDefine fx_none ext ex d) = ValidateAndApply ext (option_map absP ex) d.
-Proof. exact Proofs.define_eq_spec_partial. Qed.
+Theorem define_eq_spec : forall ext ex d,
+  desc_wf d = true -> oiprop_wf ex = true ->
+  option_map absP (GojaDefine fx_cur ext ex d) = ValidateAndApply ext (option_map absP ex) d.
+Proof. exact Proofs.define_eq_spec. Qed.
 
-Theorem define_guard_exact : forall ext ex d,
-  desc_wf d = true -> oiprop_wf ex = true -> in_F1 ex d || in_N2 ex d = true ->
-  option_map absP (GojaDefine fx_none ext ex d) <> ValidateAndApply ext (option_map absP ex) d.
-Proof. exact Proofs.define_guard_exact. Qed.
-
-Theorem define_refuted :
-  exists ext ex d, desc_wf d = true /\ oiprop_wf ex = true /\
-    option_map absP (GojaDefine fx_none ext ex d) <> ValidateAndApply ext (option_map absP ex) d.
-Proof. exact Proofs.define_refuted. Qed.
+Theorem define_prefix_tree_differs_exactly : forall ext ex d,
+  desc_wf d = true -> oiprop_wf ex = true ->
+  (in_F1 ex d || in_N2 ex d = true <->
+   option_map absP (GojaDefine fx_none ext ex d) <> option_map absP (GojaDefine fx_cur ext ex d)).
+Proof. exact Proofs.define_prefix_tree_differs_exactly. Qed.
 
 Theorem define_eq_spec_repaired : forall ext ex d,
   desc_wf d = true -> oiprop_wf ex = true ->
@@ -34,34 +31,43 @@ Theorem define_eq_spec_repaired : forall ext ex d,
 Proof. exact Proofs.define_eq_spec_fixed. Qed.
 
 (* the representation invariant of valueProperty (an accessor carries no value and no writable flag, a
-   data property no getter/setter) is kept by define outside N1 and N3, and broken exactly there *)
+   data property no getter/setter) — the hypothesis of define_eq_spec — is kept by define on the current
+   tree outside the regions N1 and N3, and broken exactly there (open findings C04-N1, C04-N3); with
+   all repairs on it is kept everywhere (define_eq_spec_repaired) *)
 Theorem define_wf_partial : forall ext ex d,
   desc_wf d = true -> oiprop_wf ex = true ->
-  in_N1 fx_none ext ex d = false -> in_N3 fx_none ext ex d = false ->
-  oiprop_wf (GojaDefine fx_none ext ex d) = true.
+  in_N1 fx_cur ext ex d = false -> in_N3 fx_cur ext ex d = false ->
+  oiprop_wf (GojaDefine fx_cur ext ex d) = true.
 Proof. exact Proofs.define_wf_partial. Qed.
 
 Theorem define_wf_guard_exact : forall ext ex d,
   desc_wf d = true -> oiprop_wf ex = true ->
-  in_N1 fx_none ext ex d || in_N3 fx_none ext ex d = true ->
-  oiprop_wf (GojaDefine fx_none ext ex d) = false.
+  in_N1 fx_cur ext ex d || in_N3 fx_cur ext ex d = true ->
+  oiprop_wf (GojaDefine fx_cur ext ex d) = false.
 Proof. exact Proofs.define_wf_guard_exact. Qed.
 
+(* N1 refuted as a two-step history: data(writable) -> accessor -> {value}: goja reports writable:true *)
 Theorem define_hidden_writable_refuted :
   exists ip, n1_step1 = Some ip /\ iprop_wf ip = false /\
-    option_map absP (GojaDefine fx_none true (Some ip) (d_value_only (VNum 2))) = Some (PData (VNum 2) true true true) /\
+    option_map absP (GojaDefine fx_cur true (Some ip) (d_value_only (VNum 2))) = Some (PData (VNum 2) true true true) /\
     ValidateAndApply true (Some (absP ip)) (d_value_only (VNum 2)) = Some (PData (VNum 2) false true true).
 Proof. exact Proofs.define_hidden_writable_refuted. Qed.
 
-(* non-vacuity: a point inside the proved region where something non-trivial happens (a non-configurable,
-   writable data property is made non-writable and given a new value), and the guards are satisfiable
-   both ways *)
+(* N3 refuted: accessor -> {writable:true} leaves the getter installed on a "data" property *)
+Theorem define_stale_getter_refuted :
+  exists p, GojaDefine fx_cur true (Some n3_existing) (mkDesc None (Some true) None None None None) = Some (IProp p)
+            /\ vp_accessor p = false /\ vp_getter p = Some 0 /\ vprop_wf p = false.
+Proof. exact Proofs.define_stale_getter_refuted. Qed.
+
+(* non-vacuity: a non-trivial point (a non-configurable, writable data property is made non-writable and
+   given a new value); the former F1 / N2 inputs are now refused as the specification demands *)
 Example define_eq_spec_nonvacuous :
   let ex := Some (IProp (mkVP (Some (VNum 1)) true false true false None None)) in
   let d := mkDesc (Some (VNum 2)) (Some false) None None None None in
-  desc_wf d = true /\ oiprop_wf ex = true /\ in_F1 ex d = false /\ in_N2 ex d = false /\
-  ValidateAndApply true (option_map absP ex) d = Some (PData (VNum 2) false true false) /\
-  in_F1 (Some f1_existing) f1_desc = true /\ in_N2 (Some n2_existing) n2_desc = true.
+  desc_wf d = true /\ oiprop_wf ex = true /\
+  option_map absP (GojaDefine fx_cur true ex d) = Some (PData (VNum 2) false true false) /\
+  GojaDefine fx_cur true (Some f1_existing) f1_desc = None /\ in_F1 (Some f1_existing) f1_desc = true /\
+  GojaDefine fx_cur true (Some n2_existing) n2_desc = None /\ in_N2 (Some n2_existing) n2_desc = true.
 Proof. vm_compute. repeat split. Qed.
 
 (* ---------------------------------------------------------------------------------------------- *)
@@ -143,45 +149,43 @@ Proof. vm_compute. repeat split. Qed.
 
 (* ---------------------------------------------------------------------------------------------- *)
 (* 4. [[Set]] with a receiver.  In S, whatever the target and its prototype chain, OrdinarySet changes
-      no object other than the receiver and calls at most one setter, with this = receiver.  goja's
-      setForeignSym violates this (F2: the write lands on the receiver's prototype); the string-keyed
-      twin of the same call is right, and with the repair on the symbol case agrees with S.  For goja's
-      own walk (setOwnStr/_setForeignStr/_setForeignIdx/setForeignSym transcribed) the same receiver-only
-      property is proved for all heaps: on the current tree for string and index keys, for symbols under
-      the repair (the guard [is_sym k && negb (fix_f2 fx) = false] carves out exactly F2). *)
+      no object other than the receiver and calls at most one setter, with this = receiver.  The same
+      receiver-only property is proved for goja's own walk (setOwnStr / _setForeignStr / _setForeignIdx /
+      setForeignSym and Object.setStr/setIdx/setSym transcribed) for all heaps and all key kinds on the
+      current tree; the guarded form shows that on the tree before commit 3750984 it held exactly for
+      non-symbol keys (F2), and the former F2 input now agrees with S. *)
 
 Theorem set_only_receiver : forall fuel (h : heap) o k v r,
   (forall j, j <> r -> hget (fst (fst (s_set fuel h o k v r))) j = hget h j) /\
   (snd (s_set fuel h o k v r) = [] \/ exists s, snd (s_set fuel h o k v r) = [Ev s r (Some v)]).
 Proof. exact ProofsSet.s_set_only_receiver. Qed.
 
-Theorem goja_set_only_receiver_partial : forall fx (h : iheap) o k num v r,
+Theorem goja_set_only_receiver : forall (h : iheap) o k num v r,
+  forall j, j <> r -> i_dump (ihget (fst (fst (i_set fx_cur h o k num v r))) j) = i_dump (ihget h j).
+Proof. exact ProofsSet.i_set_only_receiver_cur. Qed.
+
+Theorem goja_set_only_receiver_guarded : forall fx (h : iheap) o k num v r,
   is_sym k && negb (fix_f2 fx) = false ->
   forall j, j <> r -> i_dump (ihget (fst (fst (i_set fx h o k num v r))) j) = i_dump (ihget h j).
 Proof. exact ProofsSet.i_set_only_receiver. Qed.
 
-Theorem set_refuted :
-  map s_dump (fst (fst (sstep f2_sheap f2_op))) <> map i_dump (fst (fst (istep fx_none f2_iheap f2_op)))
-  /\ hget (fst (fst (sstep f2_sheap f2_op))) 0 = hget f2_sheap 0
-  /\ i_dump (ihget (fst (fst (istep fx_none f2_iheap f2_op))) 0) <> i_dump (ihget f2_iheap 0).
-Proof. exact ProofsSet.set_refuted. Qed.
-
-Theorem set_repaired_witness :
-  map s_dump (fst (fst (sstep f2_sheap f2_op))) = map i_dump (fst (fst (istep fx_all f2_iheap f2_op))).
-Proof. exact ProofsSet.set_repaired_witness. Qed.
+Theorem set_f2_case_agrees :
+  map s_dump (fst (fst (sstep f2_sheap f2_op))) = map i_dump (fst (fst (istep fx_cur f2_iheap f2_op)))
+  /\ map s_dump (fst (fst (sstep f2_sheap f2_op))) <> map i_dump (fst (fst (istep fx_none f2_iheap f2_op))).
+Proof. exact ProofsSet.set_f2_case_agrees. Qed.
 
 Theorem set_str_twin_agrees :
   let op := OSet 2 (KStr 0) false (VNum 3) 1 in
-  map s_dump (fst (fst (sstep f2_sheap op))) = map i_dump (fst (fst (istep fx_none f2_iheap op))).
+  map s_dump (fst (fst (sstep f2_sheap op))) = map i_dump (fst (fst (istep fx_cur f2_iheap op))).
 Proof. exact ProofsSet.set_str_twin_agrees. Qed.
 
-Print Assumptions define_eq_spec_partial.
-Print Assumptions define_guard_exact.
-Print Assumptions define_refuted.
+Print Assumptions define_eq_spec.
+Print Assumptions define_prefix_tree_differs_exactly.
 Print Assumptions define_eq_spec_repaired.
 Print Assumptions define_wf_partial.
 Print Assumptions define_wf_guard_exact.
 Print Assumptions define_hidden_writable_refuted.
+Print Assumptions define_stale_getter_refuted.
 Print Assumptions essential_invariants.
 Print Assumptions nonextensible_invariants.
 Print Assumptions frozen_is_final.
@@ -192,7 +196,7 @@ Print Assumptions ownkeys_same_set.
 Print Assumptions idxcount_exact.
 Print Assumptions sort_idx_is_sorted.
 Print Assumptions set_only_receiver.
-Print Assumptions goja_set_only_receiver_partial.
-Print Assumptions set_refuted.
-Print Assumptions set_repaired_witness.
+Print Assumptions goja_set_only_receiver.
+Print Assumptions goja_set_only_receiver_guarded.
+Print Assumptions set_f2_case_agrees.
 Print Assumptions set_str_twin_agrees.
